@@ -36,6 +36,10 @@ type Cfg struct {
 	FileM  int     `json:"file_module"`
 	// Preload: the application loaded rules through the modules' API before any datasource delivered anything
 	Preload bool `json:"preloaded_by_api,omitempty"`
+	// InitWrite: the file is rewritten while the file source starts up: 1 = when it creates its watcher (the
+	// watch is not registered yet: no event will tell), 2 = right after the watch was registered (an event follows)
+	InitWrite int      `json:"init_write,omitempty"`
+	InitList  []string `json:"init_list,omitempty"`
 }
 
 const nRes = 3
@@ -54,11 +58,11 @@ func (P) Engine() string { return "E3" }
 
 func (P) Describe() harness.Description {
 	return harness.Description{
-		MustHit: []string{"rules_preloaded_by_api", "undecodable_payload", "payload_with_null_element", "empty_payload", "identical_redelivery", "redelivery_keeps_controller_state", "file_event_delivered", "file_event_duplicated", "file_removed", "file_renamed", "file_moved_away_and_back", "file_converged"},
+		MustHit: []string{"file_written_during_startup_of_the_source", "rules_preloaded_by_api", "undecodable_payload", "payload_with_null_element", "empty_payload", "identical_redelivery", "redelivery_keeps_controller_state", "file_event_delivered", "file_event_duplicated", "file_removed", "file_renamed", "file_moved_away_and_back", "file_converged"},
 		Level:   "exploration",
 		Rule: "case = (table of rule specifications for the five parsers: valid, field-wise invalid, never-blocking / always-blocking; 5-30 deliveries to property handlers wired to the REAL rule managers: the wire-format JSON of a rule list, the same with a null element, a wrongly typed element, truncated at a drawn byte, followed by trailing bytes (a second document, a stray bracket, the tail of an older file), empty, 'null', an object instead of an array; immediate identical redelivery; probes). " +
 			"Oracle: Handle never panics out; undecodable => error returned and the previous rules stay in force; decodable => exactly its valid rules are reported, field for field (wire round trip), and govern probe traffic; empty => cleared; identical redelivery => nothing changes, including controller state (a private-window flow rule keeps its count). " +
-			"File source (40% of runs): a real RefreshableFileDataSource on a scratch file with the stub watcher; ops write / truncate / rename / remove / move away and back unchanged while the source retries its watch; the simulator delivers each file-system event delayed, duplicated or coalesced; after quiescence following the last delivered event the managers equal the file's content (previous rules if undecodable), and are empty after remove / rename. " +
+			"File source (40% of runs): a real RefreshableFileDataSource on a scratch file with the stub watcher; ops write / truncate / rename / remove (also while another process holds the file open: attribute-change event first) / move away and back unchanged while the source retries its watch; in a quarter of the file runs the file is rewritten while the source starts up (before / right after its watch is registered); the simulator delivers each file-system event delayed, duplicated or coalesced; after quiescence following the last delivered event the managers equal the file's content (previous rules if undecodable), and are empty after remove / rename. " +
 			"non-trivial = a good payload, an undecodable one and a redelivery occurred in one run; distinct = hash(config, ops)",
 		Assumptions: []string{"hotspot specific items use the documented value kinds", "events are delivered one at a time with quiescence (synctest.Wait) in between"},
 		Real:        []string{"ext/datasource handlers, parsers, updaters, hotspot converter", "ext/datasource/file.RefreshableFileDataSource incl. its watcher goroutine", "all rule managers", "api.Entry for probes", "real scratch file"},
@@ -118,7 +122,7 @@ func (P) Gen(rng *sim.Rng, tier string) *harness.Case {
 			if cfg.File {
 				switch rng.Intn(8) {
 				case 0:
-					ops = append(ops, harness.Op{K: "fremove"})
+					ops = append(ops, harness.Op{K: "fremove", F: rng.Chance(0.4)})
 				case 1:
 					if rng.Chance(0.5) {
 						// the file is moved away and moved back UNCHANGED (same content, size and modification time) while
@@ -140,6 +144,10 @@ func (P) Gen(rng *sim.Rng, tier string) *harness.Case {
 		}
 	}
 	ops = append(ops, harness.Op{K: "probe"})
+	if cfg.File && rng.Chance(0.25) {
+		cfg.InitWrite = 1 + rng.Intn(2)
+		cfg.InitList = pick(cfg.FileM)
+	}
 	return &harness.Case{Cfg: harness.MustJSON(cfg), Callers: [][]harness.Op{ops}}
 }
 
@@ -582,6 +590,7 @@ func (P) Exec(c *harness.Case) *harness.Outcome {
 		applied bool
 	}
 	var fsrc *fileState
+	initConverge := false
 	sawGood, sawBad, sawRe := false, false, false
 	var dir string
 	if cfg.File && Quiesce != nil {
@@ -595,11 +604,37 @@ func (P) Exec(c *harness.Case) *harness.Outcome {
 		fsrc = &fileState{path: filepath.Join(dir, "rules.json"), st: &hstate{h: mk(cfg.FileM)}, content: []byte("[]"), dec: true}
 		_ = os.WriteFile(fsrc.path, fsrc.content, 0o644)
 		fsrc.ds = file.NewFileDataSource(fsrc.path, fsrc.st.h)
+		initWrote := false
+		if cfg.InitWrite > 0 {
+			// the file is rewritten while the source starts up (a deployment writes its rules while the process boots)
+			list := decodeList(&cfg, cfg.InitList, cfg.FileM)
+			b, described := encode(cfg.FileM, list)
+			hook := func() {
+				if initWrote {
+					return
+				}
+				initWrote = true
+				_ = os.WriteFile(fsrc.path, b, 0o644)
+				fsrc.content, fsrc.dec, fsrc.list, fsrc.desc = b, true, list, described
+				o.Fault("file_rewritten_during_startup")
+			}
+			if cfg.InitWrite == 1 {
+				simfsnotify.OnNewWatcher = hook
+			} else {
+				simfsnotify.OnAdded = func() {
+					if !initWrote {
+						hook()
+						fsrc.pending = append(fsrc.pending, simfsnotify.Event{Name: fsrc.path, Op: simfsnotify.Write})
+					}
+				}
+			}
+		}
 		harness.Call(o, "C18.panic", 0, func() {
 			if err := fsrc.ds.Initialize(); err != nil {
 				o.Fail("C18.file-init", 0, "Initialize: %v", err)
 			}
 		})
+		simfsnotify.OnNewWatcher, simfsnotify.OnAdded = nil, nil
 		if o.Failed() {
 			return o
 		}
@@ -609,6 +644,7 @@ func (P) Exec(c *harness.Case) *harness.Outcome {
 			Quiesce()
 		}()
 		Quiesce()
+		initConverge = initWrote
 	}
 	// deliverEvent hands one pending file-system event to the watcher goroutine and waits for quiescence
 	deliverEvent := func(step int, dup int) bool {
@@ -649,6 +685,22 @@ func (P) Exec(c *harness.Case) *harness.Outcome {
 			}
 		}
 		return true
+	}
+	if initConverge {
+		// A write that came before the watch was registered is announced by no event: the source must have picked
+		// it up by itself. One that came right after the registration is announced, deliver that event first.
+		if len(fsrc.pending) > 0 {
+			if !deliverEvent(0, 1) {
+				return o
+			}
+		} else if string(fsrc.st.last) != string(fsrc.content) {
+			fsrc.st.last, fsrc.st.has = append([]byte{}, fsrc.content...), true
+			w.apply(cfg.FileM, fsrc.list, fsrc.desc)
+		}
+		o.Probe("file_written_during_startup_of_the_source")
+		if !w.probe(0, env) {
+			return o
+		}
 	}
 	if cfg.Preload {
 		// rules are already in force when the datasources deliver their first payload (which may well be an empty one)
@@ -836,7 +888,23 @@ func (P) Exec(c *harness.Case) *harness.Outcome {
 					return o
 				}
 			}
-			if op.K == "fremove" {
+			if op.K == "fremove" && op.F {
+				// Another process holds the file open (a log shipper, an editor): unlinking it then only changes
+				// its link count, which inotify announces as an attribute change; the removal itself is
+				// announced when the last descriptor is closed. The file is gone all the same.
+				_ = os.Remove(fsrc.path)
+				fsrc.pending = append(fsrc.pending, simfsnotify.Event{Name: fsrc.path, Op: simfsnotify.Chmod})
+				o.Fault("file_removed_while_held_open")
+				if !deliverEvent(step, 1) {
+					return o
+				}
+				fsrc.st.has = false
+				w.apply(cfg.FileM, nil, nil)
+				if !w.probe(step, env) {
+					return o
+				}
+				fsrc.pending = append(fsrc.pending, simfsnotify.Event{Name: fsrc.path, Op: simfsnotify.Remove})
+			} else if op.K == "fremove" {
 				_ = os.Remove(fsrc.path)
 				fsrc.pending = append(fsrc.pending, simfsnotify.Event{Name: fsrc.path, Op: simfsnotify.Remove})
 				o.Fault("file_removed")
